@@ -44,7 +44,8 @@ def Loc.atRmPid : Loc → Bool
   | .herr .rmPid _ | .fin (some .rmPid) _ => true
   | _ => false
 
-def Loc.pastTest : Loc → Bool
+def Loc.pastTest (mf : Bool) : Loc → Bool
+  | .herr .write _ => !mf
   | .herr .rmPid _ | .herr .relLock _ | .herr .exit _
   | .fin (some .rmPid) _ | .fin (some .relLock) _ | .fin none _ => true
   | _ => false
@@ -64,9 +65,9 @@ def lockRunner (sh : Shared) : Option Nat := match sh.lock with | some (.run j) 
 
 /-- an unsignalled process has no handler running, keeps the clean-up registered (repaired source) and
     has cleaned up when it is past the `cleaned` test or has exited -/
-def OwnClean (p : Proc) : Prop :=
+def OwnClean (mf : Bool) (p : Proc) : Prop :=
   p.signalled = false → p.hnd = none ∧
-    (p.loc ≠ .init → p.reg = true) ∧ (p.loc.pastTest = true → p.cleaned = true) ∧
+    (p.loc ≠ .init → p.reg = true) ∧ (p.loc.pastTest mf = true → p.cleaned = true) ∧
     (∀ c, p.dead = some (.code c) → p.cleaned = true)
 
 structure Inv (cfg : Cfg) (d0 : Bool) (s : St) : Prop where
@@ -85,9 +86,9 @@ structure Inv (cfg : Cfg) (d0 : Bool) (s : St) : Prop where
   uniqueTouch : ∀ i j, (s.procs i).touched = true → (s.procs j).touched = true → i = j
   noWrite : ∀ i, i < s.n → (s.procs i).hnd = none → (s.procs i).loc.failing = false → (s.procs i).wroteFailed = none
   epochLe : ∀ i e, (s.procs i).wroteFailed = some e → e ≤ s.sh.epoch
-  sigBody1 : ∀ i, i < s.n → (s.procs i).sigInBody = true → (s.procs i).dead = none → (s.procs i).wroteFailed = none →
+  sigBody1 : cfg.markerFirst = true → ∀ i, i < s.n → (s.procs i).sigInBody = true → (s.procs i).dead = none → (s.procs i).wroteFailed = none →
     atWrite (s.procs i) = true ∧ inBody (s.procs i) = true ∧ s.sh.lock = some (.run i) ∧ s.sh.done = false
-  sigBody2 : ∀ i, i < s.n → (s.procs i).sigInBody = true → (s.procs i).wroteFailed = some s.sh.epoch →
+  sigBody2 : cfg.markerFirst = true → ∀ i, i < s.n → (s.procs i).sigInBody = true → (s.procs i).wroteFailed = some s.sh.epoch →
     s.sh.failed.isSome = true ∧ s.sh.done = false ∧ (lockRunner s.sh = none ∨ lockRunner s.sh = some i)
   sigBody3 : ∀ i, i < s.n → (s.procs i).sigInBody = true →
     (s.procs i).loc.afterBody = true ∧ (inBody (s.procs i) = true → (s.procs i).hnd ≠ none)
@@ -97,7 +98,7 @@ structure Inv (cfg : Cfg) (d0 : Bool) (s : St) : Prop where
   pidInv : ∀ q, q < s.n → s.sh.pid = some q → (s.procs q).signalled = false → (s.procs q).cleaned = true →
     (s.procs q).loc.atRmPid = true
   deadLoc : ∀ q c, (s.procs q).dead = some (.code c) → (s.procs q).loc.isFinNone = true
-  ownClean : cfg.unregOnSuccess = false → ∀ q, q < s.n → OwnClean (s.procs q)
+  ownClean : cfg.unregOnSuccess = false → ∀ q, q < s.n → OwnClean cfg.markerFirst (s.procs q)
 
 theorem inv_init (cfg : Cfg) (done : Bool) (failed : Option Nat) : Inv cfg done (St.init done failed) := by
   constructor <;> simp [St.init, LState.holds, lockRunner, OwnClean]
@@ -109,8 +110,8 @@ macro "unfold_act" : tactic => `(tactic| (
   simp only [act]
   all_goals try split
   all_goals try split
-  all_goals try unfold stepProc mainStep handlerStep afterHandler finStart release markEpoch at *
-  all_goals try unfold deliver finStart release at *
+  all_goals try unfold stepProc mainStep handlerStep afterHandler finStart release markEpoch hsFirst hsAfterWrite hsAfterClean at *
+  all_goals try unfold deliver finStart release hsFirst at *
   all_goals try unfold release
   all_goals try unfold newProc
   all_goals try unfold upd))
@@ -124,7 +125,7 @@ macro "act_cases" a:ident "=>" t:tacticSeq : tactic => `(tactic| (
     split
     · generalize hr : stepProc _ _ _ _ = r at *
       obtain ⟨sh', p'⟩ := r
-      unfold stepProc mainStep handlerStep afterHandler finStart release markEpoch at hr
+      unfold stepProc mainStep handlerStep afterHandler finStart release markEpoch hsFirst hsAfterWrite hsAfterClean at hr
       simp only []
       try unfold upd
       ($t)
@@ -132,9 +133,9 @@ macro "act_cases" a:ident "=>" t:tacticSeq : tactic => `(tactic| (
   | signal i sg =>
     simp only [act]
     split
-    · generalize hr : deliver _ _ _ _ = r at *
+    · generalize hr : deliver _ _ _ _ _ = r at *
       obtain ⟨sh', p'⟩ := r
-      unfold deliver finStart release at hr
+      unfold deliver finStart release hsFirst at hr
       simp only []
       try unfold upd
       ($t)
@@ -270,13 +271,13 @@ theorem act_epochLe (cfg : Cfg) (d0 : Bool) (s : St) (a : Act) (h : Inv cfg d0 s
   have := h.epochLe i e
   cases a <;> unfold_act <;> grind
 
-theorem act_sigBody1 (cfg : Cfg) (d0 : Bool) (s : St) (a : Act) (h : Inv cfg d0 s) :
+theorem act_sigBody1 (cfg : Cfg) (d0 : Bool) (s : St) (a : Act) (h : Inv cfg d0 s) (hm : cfg.markerFirst = true) :
     ∀ i, i < (act cfg s a).n → ((act cfg s a).procs i).sigInBody = true → ((act cfg s a).procs i).dead = none →
       ((act cfg s a).procs i).wroteFailed = none →
       atWrite ((act cfg s a).procs i) = true ∧ inBody ((act cfg s a).procs i) = true ∧
       (act cfg s a).sh.lock = some (.run i) ∧ (act cfg s a).sh.done = false := by
   intro i
-  have := h.sigBody1 i
+  have := h.sigBody1 hm i
   have := h.held i
   have := h.notDone i
   have := h.held a.proc
@@ -287,14 +288,14 @@ theorem act_sigBody1 (cfg : Cfg) (d0 : Bool) (s : St) (a : Act) (h : Inv cfg d0 
     grind (splits := 30) [atWrite, inBody, noHandler, Loc.holding, Loc.critical, Loc.handled, Loc.inTry, LState.holds]
 
 set_option maxHeartbeats 2000000 in
-theorem act_sigBody2 (cfg : Cfg) (d0 : Bool) (s : St) (a : Act) (h : Inv cfg d0 s) :
+theorem act_sigBody2 (cfg : Cfg) (d0 : Bool) (s : St) (a : Act) (h : Inv cfg d0 s) (hm : cfg.markerFirst = true) :
     ∀ i, i < (act cfg s a).n → ((act cfg s a).procs i).sigInBody = true →
       ((act cfg s a).procs i).wroteFailed = some (act cfg s a).sh.epoch →
       (act cfg s a).sh.failed.isSome = true ∧ (act cfg s a).sh.done = false ∧
       (lockRunner (act cfg s a).sh = none ∨ lockRunner (act cfg s a).sh = some i) := by
   intro i
-  have := h.sigBody2 i
-  have := h.sigBody1 i
+  have := h.sigBody2 hm i
+  have := h.sigBody1 hm i
   have := h.sigBody3 i
   have := h.noWrite i
   have := h.epochLe i
@@ -331,7 +332,7 @@ theorem act_deadLoc (cfg : Cfg) (d0 : Bool) (s : St) (a : Act) (h : Inv cfg d0 s
 /-- lifting of an invariant that only looks at one process record -/
 theorem act_local (cfg : Cfg) (P : Proc → Prop) (hnew : ∀ o b, P (newProc o b))
     (hstep : ∀ i sh p, P p → P (stepProc cfg i sh p).2)
-    (hsig : ∀ i sh p sg, P p → P (deliver i sh p sg).2)
+    (hsig : ∀ i sh p sg, P p → P (deliver cfg i sh p sg).2)
     (s : St) (a : Act) (h : ∀ q, q < s.n → P (s.procs q)) :
     ∀ q, q < (act cfg s a).n → P ((act cfg s a).procs q) := by
   intro q
@@ -351,30 +352,31 @@ theorem act_local (cfg : Cfg) (P : Proc → Prop) (hnew : ∀ o b, P (newProc o 
   | lDie l => simp only [act]; split <;> grind
 
 theorem step_ownClean (cfg : Cfg) (hc : cfg.unregOnSuccess = false) (i : Nat) (sh : Shared) (p : Proc)
-    (ih : OwnClean p) : OwnClean (stepProc cfg i sh p).2 := by
+    (ih : OwnClean cfg.markerFirst p) : OwnClean cfg.markerFirst (stepProc cfg i sh p).2 := by
   unfold OwnClean at *
   cases hr : stepProc cfg i sh p with
   | mk sh' p' =>
-  unfold stepProc mainStep handlerStep afterHandler finStart release markEpoch at hr
+  unfold stepProc mainStep handlerStep afterHandler finStart release markEpoch hsFirst hsAfterWrite hsAfterClean at hr
   simp only
   intro hs
-  refine ⟨?_, ?_, ?_, ?_⟩ <;> grind (splits := 30) [Loc.pastTest, Loc.inTry]
+  cases hmf : cfg.markerFirst <;> simp only [hmf, if_true, if_false, Bool.false_eq_true] at hr ih ⊢ <;>
+    (refine ⟨?_, ?_, ?_, ?_⟩ <;> grind (splits := 30) [Loc.pastTest, Loc.inTry])
 
-theorem deliver_ownClean (i : Nat) (sh : Shared) (p : Proc) (sg : Sig)
-    (ih : OwnClean p) : OwnClean (deliver i sh p sg).2 := by
+theorem deliver_ownClean (cfg : Cfg) (i : Nat) (sh : Shared) (p : Proc) (sg : Sig)
+    (ih : OwnClean cfg.markerFirst p) : OwnClean cfg.markerFirst (deliver cfg i sh p sg).2 := by
   unfold OwnClean at *
-  cases hr : deliver i sh p sg with
+  cases hr : deliver cfg i sh p sg with
   | mk sh' p' =>
-  unfold deliver finStart release at hr
+  unfold deliver finStart release hsFirst at hr
   simp only
   intro hs
   refine ⟨?_, ?_, ?_, ?_⟩ <;> grind (splits := 30) [Loc.pastTest, Loc.inTry]
 
 
 theorem act_ownClean (cfg : Cfg) (d0 : Bool) (s : St) (a : Act) (h : Inv cfg d0 s) :
-    cfg.unregOnSuccess = false → ∀ q, q < (act cfg s a).n → OwnClean ((act cfg s a).procs q) := fun hc =>
-  act_local cfg OwnClean (by intro o b; simp [OwnClean, newProc, Loc.pastTest])
-    (fun i sh p => step_ownClean cfg hc i sh p) deliver_ownClean s a (h.ownClean hc)
+    cfg.unregOnSuccess = false → ∀ q, q < (act cfg s a).n → OwnClean cfg.markerFirst ((act cfg s a).procs q) := fun hc =>
+  act_local cfg (OwnClean cfg.markerFirst) (by intro o b; simp [OwnClean, newProc, Loc.pastTest])
+    (fun i sh p => step_ownClean cfg hc i sh p) (deliver_ownClean cfg) s a (h.ownClean hc)
 
 theorem inv_act (cfg : Cfg) (d0 : Bool) (s : St) (a : Act) (h : Inv cfg d0 s) : Inv cfg d0 (act cfg s a) where
   fresh := act_fresh cfg d0 s a h
@@ -439,16 +441,16 @@ theorem act_doneOrigin (cfg : Cfg) (d0 : Bool) (s : St) (a : Act) (h : DoneOrigi
         revert hd
         generalize hr : stepProc _ _ _ _ = r
         obtain ⟨sh', p'⟩ := r
-        unfold stepProc mainStep handlerStep afterHandler finStart release markEpoch at hr
+        unfold stepProc mainStep handlerStep afterHandler finStart release markEpoch hsFirst hsAfterWrite hsAfterClean at hr
         simp only [upd]
         grind (splits := 30)
       · grind
     | signal i sg =>
       simp only [act]
       split
-      · generalize hr : deliver _ _ _ _ = r
+      · generalize hr : deliver _ _ _ _ _ = r
         obtain ⟨sh', p'⟩ := r
-        unfold deliver finStart release at hr
+        unfold deliver finStart release hsFirst at hr
         grind (splits := 30)
       · grind
     | spawn o b => simp only [act]; grind
@@ -502,17 +504,17 @@ theorem step_touchLocal (cfg : Cfg) (i : Nat) (sh : Shared) (p : Proc) (ih : Tou
   unfold TouchLocal at *
   cases hr : stepProc cfg i sh p with
   | mk sh' p' =>
-  unfold stepProc mainStep handlerStep afterHandler finStart release markEpoch at hr
+  unfold stepProc mainStep handlerStep afterHandler finStart release markEpoch hsFirst hsAfterWrite hsAfterClean at hr
   simp only
   have := Loc.afterTouch_not_inTry p.loc
   refine ⟨?_, ?_⟩ <;> grind (splits := 30) [Loc.afterTouch, Loc.afterBody, Loc.inTry, inBody]
 
-theorem deliver_touchLocal (i : Nat) (sh : Shared) (p : Proc) (sg : Sig) (ih : TouchLocal p) :
-    TouchLocal (deliver i sh p sg).2 := by
+theorem deliver_touchLocal (cfg : Cfg) (i : Nat) (sh : Shared) (p : Proc) (sg : Sig) (ih : TouchLocal p) :
+    TouchLocal (deliver cfg i sh p sg).2 := by
   unfold TouchLocal at *
-  cases hr : deliver i sh p sg with
+  cases hr : deliver cfg i sh p sg with
   | mk sh' p' =>
-  unfold deliver finStart release at hr
+  unfold deliver finStart release hsFirst at hr
   simp only
   refine ⟨?_, ?_⟩ <;> grind (splits := 30) [Loc.afterTouch, Loc.afterBody, Loc.inTry, inBody, noHandler]
 
@@ -528,7 +530,7 @@ theorem touchLocal_reach {cfg : Cfg} {done : Bool} {failed : Option Nat} {s : St
   | cons a as ih =>
     intro s h
     exact ih _ (act_local cfg TouchLocal (by intro o b; simp [TouchLocal, newProc]) (step_touchLocal cfg)
-      deliver_touchLocal s a h)
+      (deliver_touchLocal cfg) s a h)
 
 
 /-- `k` consecutive steps of one process, seen on the shared state and its own record -/
@@ -615,15 +617,15 @@ theorem step_noClean (cfg : Cfg) (i : Nat) (sh : Shared) (p : Proc) (ih : NoClea
   unfold NoClean at *
   cases hr : stepProc cfg i sh p with
   | mk sh' p' =>
-  unfold stepProc mainStep handlerStep afterHandler finStart release markEpoch at hr
+  unfold stepProc mainStep handlerStep afterHandler finStart release markEpoch hsFirst hsAfterWrite hsAfterClean at hr
   simp only
   grind (splits := 30) [Loc.failing, Loc.inTry]
 
-theorem deliver_noClean (i : Nat) (sh : Shared) (p : Proc) (sg : Sig) (ih : NoClean p) : NoClean (deliver i sh p sg).2 := by
+theorem deliver_noClean (cfg : Cfg) (i : Nat) (sh : Shared) (p : Proc) (sg : Sig) (ih : NoClean p) : NoClean (deliver cfg i sh p sg).2 := by
   unfold NoClean at *
-  cases hr : deliver i sh p sg with
+  cases hr : deliver cfg i sh p sg with
   | mk sh' p' =>
-  unfold deliver finStart release at hr
+  unfold deliver finStart release hsFirst at hr
   simp only
   grind (splits := 30) [Loc.failing, Loc.inTry]
 
@@ -638,17 +640,18 @@ theorem noClean_reach {cfg : Cfg} {done : Bool} {failed : Option Nat} {s : St} (
   | nil => intro s h; exact h
   | cons a as ih =>
     intro s h
-    exact ih _ (act_local cfg NoClean (by intro o b; simp [NoClean, newProc]) (step_noClean cfg) deliver_noClean s a h)
+    exact ih _ (act_local cfg NoClean (by intro o b; simp [NoClean, newProc]) (step_noClean cfg) (deliver_noClean cfg) s a h)
 
 /-- a process interrupted inside the body by a handled signal, running alone: 10 steps to its death -/
 theorem solo_signal (cfg : Cfg) (i : Nat) (sh : Shared) (p : Proc) (k c : Nat)
-    (hd : p.dead = none) (hl : p.loc = .body k) (hh : p.hnd = some (.write, c)) (hlock : sh.lock = some (.run i))
+    (hd : p.dead = none) (hl : p.loc = .body k) (hh : p.hnd = some (hsFirst cfg, c)) (hlock : sh.lock = some (.run i))
     (hdone : sh.done = false) (hreg : p.reg = true) (hcl : p.cleaned = false) :
     (soloIter cfg i 10 (sh, p)).1.failed = some 1 ∧ (soloIter cfg i 10 (sh, p)).1.done = false ∧
     (soloIter cfg i 10 (sh, p)).1.lock = none ∧ (soloIter cfg i 10 (sh, p)).1.pid = none ∧
     (soloIter cfg i 10 (sh, p)).2.dead = some (.code 1) := by
-  simp [soloIter, stepProc, handlerStep, mainStep, afterHandler, finStart, release, markEpoch, Loc.inTry,
-    hd, hl, hh, hlock, hdone, hreg, hcl]
+  cases hmf : cfg.markerFirst <;> simp only [hsFirst, hmf, if_true, if_false, Bool.false_eq_true] at hh <;>
+    simp [soloIter, stepProc, handlerStep, mainStep, afterHandler, finStart, release, markEpoch, Loc.inTry,
+      hsFirst, hsAfterWrite, hsAfterClean, hmf, hd, hl, hh, hlock, hdone, hreg, hcl]
 
 
 /-- in a quiescent reachable state (every runner dead, no launcher in its critical section) the lock is free -/
@@ -661,5 +664,73 @@ theorem quiescent_lock_free {cfg : Cfg} {done : Bool} {failed : Option Nat} {s :
     cases ho with
     | run i => have := inv.lockRun i hl; exact absurd this.2 (hq i this.1)
     | launch l => have := (inv.lockLaunch l).mp hl; simp [hlq l] at this
+
+/-- `handle_error` (as a signal handler or called from an `except` clause) past its first action has written the marker -/
+def MarkerFirstLocal (p : Proc) : Prop :=
+  (∀ st c, p.hnd = some (st, c) → st ≠ .write → p.wroteFailed ≠ none) ∧
+  (∀ st c, p.loc = .herr st c → st ≠ .write → p.wroteFailed ≠ none)
+
+theorem step_markerFirstLocal (cfg : Cfg) (hm : cfg.markerFirst = true) (i : Nat) (sh : Shared) (p : Proc)
+    (ih : MarkerFirstLocal p) : MarkerFirstLocal (stepProc cfg i sh p).2 := by
+  unfold MarkerFirstLocal at *
+  cases hr : stepProc cfg i sh p with
+  | mk sh' p' =>
+  unfold stepProc mainStep handlerStep afterHandler finStart release markEpoch hsFirst hsAfterWrite hsAfterClean at hr
+  simp only [hm, if_true] at hr
+  simp only
+  refine ⟨?_, ?_⟩ <;> grind (splits := 30) [Loc.inTry]
+
+theorem deliver_markerFirstLocal (cfg : Cfg) (hm : cfg.markerFirst = true) (i : Nat) (sh : Shared) (p : Proc) (sg : Sig)
+    (ih : MarkerFirstLocal p) : MarkerFirstLocal (deliver cfg i sh p sg).2 := by
+  unfold MarkerFirstLocal at *
+  cases hr : deliver cfg i sh p sg with
+  | mk sh' p' =>
+  unfold deliver finStart release hsFirst at hr
+  simp only [hm, if_true] at hr
+  simp only
+  refine ⟨?_, ?_⟩ <;> grind (splits := 30) [Loc.inTry]
+
+theorem markerFirstLocal_reach {cfg : Cfg} (hm : cfg.markerFirst = true) {done : Bool} {failed : Option Nat} {s : St}
+    (h : Reach cfg done failed s) : ∀ q, q < s.n → MarkerFirstLocal (s.procs q) := by
+  obtain ⟨acts, rfl⟩ := h
+  suffices ∀ (acts : List Act) (s : St), (∀ q, q < s.n → MarkerFirstLocal (s.procs q)) →
+      ∀ q, q < (run cfg s acts).n → MarkerFirstLocal ((run cfg s acts).procs q) from
+    this acts _ (by intro q hq; simp [St.init] at hq)
+  intro acts
+  induction acts with
+  | nil => intro s h; exact h
+  | cons a as ih =>
+    intro s h
+    exact ih _ (act_local cfg MarkerFirstLocal (by intro o b; simp [MarkerFirstLocal, newProc])
+      (step_markerFirstLocal cfg hm) (deliver_markerFirstLocal cfg hm) s a h)
+
+/-- a process signalled inside the body that has begun to clean up has written the failure marker -/
+def MBC (s : St) : Prop := ∀ i, i < s.n → (s.procs i).sigInBody = true → (s.procs i).cleaned = true → (s.procs i).wroteFailed ≠ none
+
+theorem act_mbc (cfg : Cfg) (d0 : Bool) (s : St) (a : Act) (h : Inv cfg d0 s) (hm : cfg.markerFirst = true)
+    (hnc : ∀ q, q < s.n → NoClean (s.procs q)) (ih : MBC s) : MBC (act cfg s a) := by
+  intro i
+  have := ih i
+  have := h.sigBody1 hm i
+  have := h.sigBody3 i
+  have := hnc i
+  have := h.fresh s.n
+  unfold NoClean at *
+  act_cases a => (simp only [hm, if_true] at *; grind (splits := 30) [atWrite, inBody, noHandler, Loc.failing, Loc.afterBody, Loc.inTry])
+
+theorem mbc_reach {cfg : Cfg} (hm : cfg.markerFirst = true) {done : Bool} {failed : Option Nat} {s : St}
+    (h : Reach cfg done failed s) : MBC s := by
+  obtain ⟨acts, rfl⟩ := h
+  suffices ∀ (acts : List Act) (s : St), Inv cfg done s → (∀ q, q < s.n → NoClean (s.procs q)) → MBC s →
+      MBC (run cfg s acts) from
+    this acts _ (inv_init cfg done failed) (by intro q hq; simp [St.init] at hq) (by intro q hq; simp [St.init] at hq)
+  intro acts
+  induction acts with
+  | nil => intro s _ _ h; exact h
+  | cons a as ih =>
+    intro s hi hn hb
+    exact ih _ (inv_act cfg done s a hi)
+      (act_local cfg NoClean (by intro o b; simp [NoClean, newProc]) (step_noClean cfg) (deliver_noClean cfg) s a hn)
+      (act_mbc cfg done s a hi hm hn hb)
 
 end XpmVerif.Runner
